@@ -289,7 +289,7 @@ namespace
   struct ModeSpec { FileMode mode; bool text; const char* name; };
 
   template<typename C_>
-  void stream_roundtrip(const C_& orig, const Snapshot& ref, const ModeSpec& ms, const std::string& what, size_t wchunk, size_t rchunk, bool vary)
+  void stream_roundtrip(const C_& orig, const Snapshot& ref, const ModeSpec& ms, const std::string& what, size_t wchunk, size_t rchunk, bool vary, C_* prefilled = nullptr)
   {
     Bytes file;
     {
@@ -301,6 +301,7 @@ namespace
     }
     CNT.bytes += file.size();
     C_ back;
+    if(prefilled != nullptr) back = std::move(*prefilled);   // read into an object that already holds other data
     {
       simfs::SimStreamBuf sb(file, rchunk, vary);
       std::istream is(&sb);
@@ -315,25 +316,26 @@ namespace
 
   // serialize<DT2,IT2> -> deserialize<DT2,IT2> (type-converting, in memory) and through a stream
   template<typename DT2_, typename IT2_, typename C_>
-  void serial_roundtrip(const C_& orig, const Snapshot& ref, const std::string& what)
+  void serial_roundtrip(const C_& orig, const Snapshot& ref, const std::string& what, C_* prefilled = nullptr)
   {
     std::vector<char> buf = orig.template serialize<DT2_, IT2_>(LAFEM::SerialConfig(false, false));
     C_ back;
+    if(prefilled != nullptr) back = std::move(*prefilled);
     back.template deserialize<DT2_, IT2_>(buf);
     compare(ref, snap(back), false, what + " serialize<" + Type::Traits<DT2_>::name() + "," + Type::Traits<IT2_>::name() + ">");
     ++CNT.converted; ++CNT.roundtrips;
   }
 
   template<typename C_>
-  void all_serial(const C_& orig, const Snapshot& ref, const std::string& what, int which)
+  void all_serial(const C_& orig, const Snapshot& ref, const std::string& what, int which, C_* prefilled = nullptr)
   {
     switch(which)
     {
-    case 0: serial_roundtrip<typename C_::DataType, typename C_::IndexType>(orig, ref, what); break;
-    case 1: serial_roundtrip<float, std::uint64_t>(orig, ref, what); break;
-    case 2: serial_roundtrip<double, std::uint32_t>(orig, ref, what); break;
-    case 3: serial_roundtrip<float, std::uint32_t>(orig, ref, what); break;
-    case 4: serial_roundtrip<double, std::uint64_t>(orig, ref, what); break;
+    case 0: serial_roundtrip<typename C_::DataType, typename C_::IndexType>(orig, ref, what, prefilled); break;
+    case 1: serial_roundtrip<float, std::uint64_t>(orig, ref, what, prefilled); break;
+    case 2: serial_roundtrip<double, std::uint32_t>(orig, ref, what, prefilled); break;
+    case 3: serial_roundtrip<float, std::uint32_t>(orig, ref, what, prefilled); break;
+    case 4: serial_roundtrip<double, std::uint64_t>(orig, ref, what, prefilled); break;
     }
   }
 
@@ -373,8 +375,13 @@ namespace
     {
       C_ c = make(g, sh);
       Snapshot ref = snap(c);
-      stream_roundtrip(c, ref, modes[size_t(mi)], what, wchunk, rchunk, vary);
-      all_serial(c, ref, what, ser);
+      // a third of the runs read into objects that already hold a container of another shape
+      const bool prefill = g.idx(3) == 0;
+      Shape s2 = sh; s2.n = g.idx(sh.n + 5); s2.rows = 1 + g.idx(sh.rows + 3); s2.cols = 1 + g.idx(sh.cols + 3);
+      C_ pre1, pre2;
+      if(prefill) { pre1 = make(g, s2); pre2 = make(g, s2); sim::probe("read_into_non_empty_object"); }
+      stream_roundtrip(c, ref, modes[size_t(mi)], what, wchunk, rchunk, vary, prefill ? &pre1 : nullptr);
+      all_serial(c, ref, what, ser, prefill ? &pre2 : nullptr);
     }
     if(nmulti > 0 && !modes[size_t(mi)].text)
     {
@@ -382,6 +389,42 @@ namespace
       for(int k = 0; k <= nmulti; ++k) { Shape s2 = sh; s2.n = g.idx(sh.n + 3); s2.rows = 1 + g.idx(sh.rows + 2); s2.cols = 1 + g.idx(sh.cols + 2); objs.push_back(make(g, s2)); }
       multi_roundtrip(objs, modes[size_t(mi)], what, wchunk, rchunk, vary);
     }
+  }
+
+  // symmetric MatrixMarket files: only the lower triangle is stored, the reader mirrors it
+  template<typename DT_, typename IT_>
+  void symmetric_mtx_roundtrip(Gen& g, const Shape& sh, size_t wchunk, size_t rchunk, bool vary)
+  {
+    const Index n = std::max<Index>(std::min<Index>(sh.rows, 14), 1);
+    std::vector<char> pat(size_t(n * n), 0);
+    std::vector<double> val(size_t(n * n), 0.0);
+    for(Index i = 0; i < n; ++i) for(Index j = 0; j <= i; ++j)
+      if(g.idx(1200) < Index(sh.density) || (i == j && g.idx(3) == 0)) { pat[size_t(i * n + j)] = pat[size_t(j * n + i)] = 1; val[size_t(i * n + j)] = val[size_t(j * n + i)] = g.val(); }
+    std::vector<Index> ptr(n + 1, 0), idx;
+    for(Index i = 0; i < n; ++i) { ptr[i] = Index(idx.size()); for(Index j = 0; j < n; ++j) if(pat[size_t(i * n + j)]) idx.push_back(j); }
+    ptr[n] = Index(idx.size());
+    Adjacency::Graph gr(n, n, Index(idx.size()));
+    for(Index r = 0; r <= n; ++r) gr.get_domain_ptr()[r] = ptr[r];
+    for(size_t i = 0; i < idx.size(); ++i) gr.get_image_idx()[i] = idx[i];
+    SparseMatrixCSR<DT_, IT_> m(gr);
+    for(Index i = 0; i < n; ++i) for(Index k = ptr[i]; k < ptr[i + 1]; ++k) m.val()[k] = DT_(val[size_t(i * n + idx[k])]);
+    if(m.used_elements() == 0) return;   // entry-less matrices are covered by the general path
+    Bytes file;
+    {
+      simfs::SimStreamBuf sb(file, wchunk, vary);
+      std::ostream os(&sb);
+      m.write_out(FileMode::fm_mtx, os, true);
+      os.flush();
+    }
+    SparseMatrixCSR<DT_, IT_> back;
+    {
+      simfs::SimStreamBuf sb(file, rchunk, vary);
+      std::istream is(&sb);
+      back.read_from(FileMode::fm_mtx, is);
+    }
+    compare(snap_canon(m), snap_canon(back), true, "SparseMatrixCSR symmetric MatrixMarket file");
+    ++CNT.roundtrips; ++CNT.text;
+    sim::probe("symmetric_matrix_market_file");
   }
 
   // Pack::encode/decode directly (the layer below Container::_serialize): raw and type-converting packing with and
@@ -482,7 +525,9 @@ namespace
     case 1: exercise<DenseVectorBlocked<DT_, IT_, 3>>("DenseVectorBlocked3", make_dvb<DT_, IT_>, {exp, mtx, {FileMode::fm_dvb, false, "fm_dvb"}, bin}, g, sh); break;
     case 2: exercise<SparseVector<DT_, IT_>>("SparseVector", make_sv<DT_, IT_>, {mtx, {FileMode::fm_sv, false, "fm_sv"}, bin}, g, sh); break;
     case 3: exercise<DenseMatrix<DT_, IT_>>("DenseMatrix", make_dm<DT_, IT_>, {mtx, {FileMode::fm_dm, false, "fm_dm"}, bin}, g, sh); break;
-    case 4: exercise<SparseMatrixCSR<DT_, IT_>>("SparseMatrixCSR", make_csr<DT_, IT_>, {mtx, {FileMode::fm_csr, false, "fm_csr"}, bin}, g, sh); break;
+    case 4: exercise<SparseMatrixCSR<DT_, IT_>>("SparseMatrixCSR", make_csr<DT_, IT_>, {mtx, {FileMode::fm_csr, false, "fm_csr"}, bin}, g, sh);
+      if(g.idx(3) == 0) symmetric_mtx_roundtrip<DT_, IT_>(g, sh, 64, 64, true);
+      break;
     case 5: exercise<SparseMatrixBCSR<DT_, IT_, 2, 3>>("SparseMatrixBCSR2x3", make_bcsr<DT_, IT_>, {{FileMode::fm_bcsr, false, "fm_bcsr"}, bin}, g, sh); break;
     case 6: exercise<SparseMatrixBanded<DT_, IT_>>("SparseMatrixBanded", make_banded<DT_, IT_>, {{FileMode::fm_bm, false, "fm_bm"}, bin}, g, sh); break;
     case 8: exercise<SparseVectorBlocked<DT_, IT_, 2>>("SparseVectorBlocked2", make_svb<DT_, IT_>, {{FileMode::fm_svb, false, "fm_svb"}, bin}, g, sh); break;
